@@ -112,14 +112,17 @@ def isa_level(form, bits, tmpdir):
     key = (form, bits)
     if key in _level_cache:
         return _level_cache[key]
-    src = os.path.join(tmpdir, "probe_%d.s" % os.getpid())
-    with open(src, "w") as f:
-        f.write(form + "\n9:\n")
+    if form in ("endbr32", "endbr64"):
+        # hint-NOP space: executes as a NOP on every CPU (gas wants +ibt for it)
+        _level_cache[key] = (0, None)
+        return _level_cache[key]
+    text = (form + "\n9:\n").encode()
     lvl = None
     msg = None
     for i, l in enumerate(LEVELS):
-        march = "generic%d+nosse" % bits + ("" if l == "base" else "+" + l)
-        p = subprocess.run(["as", "--%d" % bits, "-march=" + march, "-o", "/dev/null", src], stdout=subprocess.PIPE, stderr=subprocess.PIPE)
+        # base = integer (incl. cmov) + MMX on both widths
+        march = ("generic64+mmx+nosse" if bits == 64 else "i686+mmx+nosse") + ("" if l == "base" else "+" + l)
+        p = subprocess.run(["as", "--%d" % bits, "-march=" + march, "-o", "/dev/null", "-"], input=text, stdout=subprocess.PIPE, stderr=subprocess.PIPE)
         if p.returncode == 0:
             lvl = i
             break
